@@ -107,6 +107,14 @@ func execAstream(c fw.Case) (string, *fw.OracleFailure) {
 	astype, _ := strconv.Atoi(c.Args[0])
 	seed, _ := strconv.ParseUint(c.Args[1], 10, 64)
 	stream := fw.UnHex(c.Args[2])
+	var explicit []int // "c:<pos>.<pos>…" = cut exactly there
+	if strings.HasPrefix(c.Args[1], "c:") {
+		for _, p := range strings.Split(c.Args[1][2:], ".") {
+			if v, err := strconv.Atoi(p); err == nil {
+				explicit = append(explicit, v)
+			}
+		}
+	}
 	srv, err := c10Server("attach", astype)
 	if err != nil {
 		return "server-start-failed", &fw.OracleFailure{Sig: "server/start", Msg: err.Error()}
@@ -120,6 +128,18 @@ func execAstream(c fw.Case) (string, *fw.OracleFailure) {
 	pause := time.Duration(0)
 	if len(chunks) < 40 {
 		pause = 300 * time.Microsecond
+	}
+	if explicit != nil {
+		chunks = nil
+		prev := 0
+		for _, p := range explicit {
+			if p > prev && p < len(stream) {
+				chunks = append(chunks, stream[prev:p])
+				prev = p
+			}
+		}
+		chunks = append(chunks, stream[prev:])
+		pause = 3 * time.Millisecond // the server must really see the pieces as separate reads
 	}
 	_ = cl.SendChunks(chunks, pause)
 	_ = cl.CloseWrite()
